@@ -417,8 +417,9 @@ def write_generated(kw, used):
            "    templates in compiler/*.go); do not edit. -/\n"
            "namespace GV.Generated\n"
            "def reservedKeywords : List String := %s\n"
+           "def reservedKeywordBytes : List (List Nat) := %s\n"
            "def usedUnqualified : List String := %s\n"
-           "end GV.Generated\n") % (strs(kw), strs(sorted(used)))
+           "end GV.Generated\n") % (strs(kw), "[" + ", ".join(str(list(k.encode())) for k in kw) + "]", strs(sorted(used)))
     old = open(path).read() if os.path.exists(path) else None
     if old != src:
         with open(path, "w") as f:
